@@ -100,7 +100,8 @@ def build_msg(spec, source='bytes', tmpdir=None):
 def attach(msg, data, source='bytes', tmpdir=None):
     if data is None:
         msg.data_set = None
-    elif source == 'bytes':
+    elif source == 'bytes' or not data:
+        # (an EMPTY file-like object is outside every property's domain - data sets have length >= 1)
         msg.data_set = bytes(data)
     elif source == 'bytesio':
         msg.data_set = io.BytesIO(bytes(data))
